@@ -171,7 +171,7 @@ CHECKS["C04"] = dict(
                 "no later than the earliest registered expiry rounded up to the next millisecond; 'chatty' seeds present the same deadline "
                 "on >=5 consecutive polls so that the kernel-timer optimisation engages, fires and is cancelled",
     assumptions=LOOP_ASSUME + ["expiry alphabet: zero, now-1s, now, now+1ns, now+10ms, now+100s"],
-    deadline=dict(quick=150, thorough=900),
+    deadline=dict(quick=240, thorough=900),
 )
 TK_OPS = "leave,tkreg,tkunreg,feed,tmreg,evpost,fdunreg"
 CHECKS["C06"] = dict(
@@ -215,7 +215,7 @@ CHECKS["C07"] = dict(
                 "creating the wake-up descriptor) must leave the loop unchanged; callbacks only inside iv_main and never nested; a loop that "
                 "would block must have nothing due; >8 wake-ups without callback/time/EINTR is a spin; watchdog for hangs",
     assumptions=LOOP_ASSUME,
-    deadline=dict(quick=150, thorough=900),
+    deadline=dict(quick=300, thorough=900),
 )
 
 CHECKS["C17"] = dict(
